@@ -5,3 +5,4 @@ open GoMail.Props.C17
 #print axioms send_never_waits_unbounded
 #print axioms reset_never_waits_unbounded
 #print axioms dial_arms_first
+#print axioms no_path_keeps_a_lock
